@@ -1681,7 +1681,7 @@ impl<K: KeyT> World<K> {
                             for i in 0..=len {
                                 if let Some(k) = K::try_from_usize(i) {
                                     match $b.try_resolve(&k) {
-                                        Some(s) => { out.push((1, s.as_ptr() as usize, s.len())); probe_strings.push(s.to_string()); }
+                                        Some(s) => { out.push((1, s.as_ptr() as usize, s.len())); probe_strings.push(String::from_utf8_lossy(&crate::copy_out(s)).into_owned()); }
                                         None => out.push((0, 0, 0)),
                                     }
                                     out.push(($b.contains_key(&k) as usize, 0, 0));
